@@ -129,8 +129,10 @@ impl WmoWriter {
         };
         mogp_header.write(writer)?;
 
-        // Write group header fields
-        writer.write_u32_le(group.header.name_offset)?;
+        // Write group header fields (68-byte MOGP header of the format; the fields the object
+        // model does not carry are written as zero)
+        writer.write_u32_le(group.header.name_offset)?; // group name offset in MOGN
+        writer.write_u32_le(0)?; // descriptive group name offset in MOGN
         writer.write_u32_le(group.header.flags.bits())?;
 
         // Write bounding box
@@ -142,9 +144,18 @@ impl WmoWriter {
         writer.write_f32_le(group.header.bounding_box.max.y)?;
         writer.write_f32_le(group.header.bounding_box.max.z)?;
 
-        // Write flags and index
-        writer.write_u16_le(0)?; // Flags2, only used in later versions
-        writer.write_u16_le(group.header.group_index as u16)?;
+        writer.write_u16_le(0)?; // portal_start
+        writer.write_u16_le(0)?; // portal_count
+        writer.write_u16_le(0)?; // trans_batch_count
+        writer.write_u16_le(0)?; // int_batch_count
+        writer.write_u16_le(group.batches.len() as u16)?; // ext_batch_count
+        writer.write_u16_le(0)?; // padding / batch_type_d
+        writer.write_all(&[0u8; 4])?; // fog ids
+        writer.write_u32_le(0)?; // group liquid
+        writer.write_u32_le(group.header.group_index)?; // unique id
+        writer.write_u32_le(0)?; // flags2
+        writer.write_i16_le(-1)?; // parent / first child split group
+        writer.write_i16_le(-1)?; // next split child
 
         // Mark the start of subchunks
         let _subchunks_start = writer.stream_position()?;
